@@ -584,10 +584,13 @@ func (x *ext4Run) step(o core.Op) *core.Violation {
 			m.put("fill", &mnode{dir: true})
 			x.mutated = true
 		}
-		sz := []int64{1 << 20, 300000, 65536, 5000, 1024, 100, 1 << 20, 3 << 20}
+		// sizes are tried from large to small: when one is refused the next smaller one takes over, until not
+		// even a one-block file fits any more - only then is the last block of the volume in use
+		ladder := []int64{3 << 20, 1 << 20, 300000, 65536, 5000, 1024, 100}
 		var made []string
 		for round := 0; round < 2; round++ {
-			for i := 0; i < 120; i++ {
+			rung := int(o.A) % 3
+			for i := 0; i < 400 && rung < len(ladder); i++ {
 				x.seq++
 				p := fmt.Sprintf("fill/f%04d.bin", x.seq)
 				ok, v := x.createFile(p)
@@ -595,15 +598,16 @@ func (x *ext4Run) step(o core.Op) *core.Violation {
 					return v
 				}
 				if !ok {
-					break
+					break // no inode or no room for the entry
 				}
-				data := core.PatternBytes(uint64(o.A)+uint64(x.seq), sz[(i+int(o.A))%len(sz)])
+				data := core.PatternBytes(uint64(o.A)+uint64(x.seq), ladder[rung]+int64(i%3))
 				if v := x.writeFile(p, 0, data, false); v != nil {
 					return v
 				}
 				if x.lastErr {
 					x.res.Probe("fill-reached-refusal")
-					break
+					rung++
+					continue
 				}
 				made = append(made, p)
 			}
